@@ -454,6 +454,22 @@ impl Serialize for Outer {
     }
 }
 
+/// a zero-sized payload that does NOT serialise as plain unit (hand-written impls)
+#[derive(Clone, Debug, PartialEq, Default)]
+struct Marker;
+impl Serialize for Marker {
+    fn serialize<Se: Serializer>(&self, s: Se) -> Result<Se::Ok, Se::Error> { s.serialize_unit_struct("Marker") }
+}
+struct MarkerVisitor;
+impl<'de> Visitor<'de> for MarkerVisitor {
+    type Value = Marker;
+    fn expecting(&self, f: &mut fmt::Formatter) -> fmt::Result { f.write_str("unit struct Marker") }
+    fn visit_unit<Er: de::Error>(self) -> Result<Marker, Er> { Ok(Marker) }
+}
+impl<'de> Deserialize<'de> for Marker {
+    fn deserialize<De: Deserializer<'de>>(d: De) -> Result<Marker, De::Error> { d.deserialize_unit_struct("Marker", MarkerVisitor) }
+}
+
 struct InnerVisitor;
 impl<'de> Visitor<'de> for InnerVisitor {
     type Value = Inner;
@@ -752,6 +768,8 @@ enum P {
     Bool(bool),
     Str(String),
     Unit,
+    Marker,
+    Arr0,
     Pair(u32, String),
     Seq(Vec<u16>),
     Opt(Option<u8>),
@@ -776,6 +794,8 @@ fn parse_payload(t: &[&str]) -> Option<P> {
         ["bool", b] => b.parse().ok().map(P::Bool),
         ["str", s] => s_tok(s).map(P::Str),
         ["unit"] => Some(P::Unit),
+        ["marker"] => Some(P::Marker),
+        ["arr0"] => Some(P::Arr0),
         ["pair", n, s] => Some(P::Pair(n.parse().ok()?, s_tok(s)?)),
         ["seq", len, xs @ ..] => {
             let len: usize = len.parse().ok()?;
@@ -817,6 +837,8 @@ fn to_v(p: &P) -> V {
         P::Bool(b) => V::Bool(*b),
         P::Str(s) => V::Str(s.clone()),
         P::Unit => V::Unit,
+        P::Marker => V::Unit,
+        P::Arr0 => V::Seq(vec![]),
         P::Pair(n, s) => V::Seq(vec![V::U32(*n), V::Str(s.clone())]),
         P::Seq(xs) => V::Seq(xs.iter().map(|x| V::U16(*x)).collect()),
         P::Opt(o) => opt_v(o),
@@ -851,6 +873,8 @@ fn answer(line: &str) -> String {
             P::Bool(x) => ser_case(x, k),
             P::Str(x) => ser_case(x, k),
             P::Unit => ser_case(&(), k),
+            P::Marker => ser_case(&Marker, k),
+            P::Arr0 => ser_case(&([] as [u8; 0]), k),
             P::Pair(n, s) => ser_case(&(*n, s.clone()), k),
             P::Seq(x) => ser_case(x, k),
             P::Opt(x) => ser_case(x, k),
@@ -865,6 +889,8 @@ fn answer(line: &str) -> String {
                 P::Bool(_) => de_case::<bool>(&v, k),
                 P::Str(_) => de_case::<String>(&v, k),
                 P::Unit => de_case::<()>(&v, k),
+                P::Marker => de_case::<Marker>(&v, k),
+                P::Arr0 => de_case::<[u8; 0]>(&v, k),
                 P::Pair(..) => de_case::<(u32, String)>(&v, k),
                 P::Seq(_) => de_case::<Vec<u16>>(&v, k),
                 P::Opt(_) => de_case::<Option<u8>>(&v, k),
@@ -880,6 +906,8 @@ fn answer(line: &str) -> String {
                 P::Bool(_) => dip_case::<bool>(&v, k),
                 P::Str(_) => dip_case::<String>(&v, k),
                 P::Unit => dip_case::<()>(&v, k),
+                P::Marker => dip_case::<Marker>(&v, k),
+                P::Arr0 => dip_case::<[u8; 0]>(&v, k),
                 P::Pair(..) => dip_case::<(u32, String)>(&v, k),
                 P::Seq(_) => dip_case::<Vec<u16>>(&v, k),
                 P::Opt(_) => dip_case::<Option<u8>>(&v, k),
